@@ -1206,6 +1206,15 @@ func checkPatcherDiscipline(e *Env, p *load.Program) {
 					}
 					o := res.Of(x, nil, c)
 					destOK := o.Kind == origin.KElem && strings.HasSuffix(o.Args[0].String(), ".instructions")
+					if destOK {
+						// ... at the label's current first candidate (dest[0]), not at some other position
+						io := o.Args[1].StripConv()
+						k, isK := int64(-1), false
+						if io.Kind == origin.KElem && len(io.Args) == 2 {
+							k, isK = io.Args[1].IsConstInt()
+						}
+						destOK = io.Kind == origin.KElem && isK && k == 0 && strings.Contains(io.Args[0].String(), ".labels[")
+					}
 					r.Check(okRet && destOK, "E2.bridge", "Program.resolveLabel/return-bridge", p.Pos(c.Pos()),
 						"an early return is a copy of the destination instruction, used only when that instruction is a RetConstant",
 						"an instruction is copied as a bridge without the successful RetConstant assertion (copying a load or jump changes the meaning of the path)")
